@@ -45,6 +45,13 @@ class Cfg:
         self.mode = mode
         self.pin: Optional[int] = None  # pinned mode: own position asserted first, governed fields read through it
         self.allslots = False  # all-slots mode: a governed field is checked on every group position through gtxn
+        self.xflag = False  # direct profile only: allow `xconn` statements (operands of a connective from other blocks)
+        self.shared: Dict[str, Any] = {"uid": 0, "fee_above": 0}  # per-program counters shared with derived Cfg objects
+
+    def derive(self, extra_off):
+        c = Cfg(self.profile + ("+group" if self.group_heavy else ""), self.off | set(extra_off), self.focus, self.mode)
+        c.pin, c.allslots, c.xflag, c.shared = self.pin, self.allslots, self.xflag, self.shared
+        return c
 
     def on(self, feat: str) -> bool:
         return feat not in self.off
@@ -133,8 +140,16 @@ def atom(draw, cfg: Cfg, mode: str, version: int, fields: List[str]):
         op = draw(st.sampled_from(["==", "==", "!="]))
     elif field == "Fee":
         rd = draw(read_spec(cfg, field, version))
-        fee_consts = FEE_CONSTS if cfg.on("fee_constants_above_limit") else [c for c in FEE_CONSTS if c <= 272000]
+        # known finding (the fee information is one upper bound: two or more comparisons with constants above
+        # the limit can exclude every dangerous fee jointly without the tool noticing): with the feature off a
+        # program holds at most ONE Fee comparison whose constant lies above the limit - a single one is
+        # represented exactly (each below-limit comparison excludes all dangerous fees or none)
+        fee_consts = FEE_CONSTS
+        if not cfg.on("fee_constants_above_limit") and cfg.shared["fee_above"] >= 1:
+            fee_consts = [c for c in FEE_CONSTS if c <= 272000]
         c = draw(int_const(fee_consts, version))
+        if c[1] > 272000:
+            cfg.shared["fee_above"] += 1
         op = draw(st.sampled_from(CMP_OPS))
     elif field == "GroupSize":
         rd = ["read", {"kind": "global", "field": "GroupSize"}]
@@ -226,6 +241,8 @@ def stmts(draw, cfg: Cfg, mode: str, version: int, fields, subs: List[str], dept
                 kinds += ["carryindex"]
             if subs and version >= 4:
                 kinds += ["passcond"]
+        if (cfg.profile == "modelled" or cfg.xflag) and cfg.on("xconn"):
+            kinds += ["xconn", "xconn"]
         kind = draw(st.sampled_from(kinds))
         if in_sub is not None and kind in ("approve", "return") and not cfg.on("sub_internal_approve"):
             kind = "assert" if version >= 3 else "pad"
@@ -246,7 +263,7 @@ def stmts(draw, cfg: Cfg, mode: str, version: int, fields, subs: List[str], dept
             else:
                 # known finding: a loop body is never part of a reported path; keep absolute-index
                 # reads (and calls, which could hide them) out of loop bodies
-                cfg2 = Cfg(cfg.profile, cfg.off | {"gtxn_reads"}, cfg.focus, cfg.mode)
+                cfg2 = cfg.derive({"gtxn_reads"})
                 body = draw(stmts(cfg2, mode, version, fields, [], depth + 1, budget, in_sub))
             out.append(["while", draw(st.integers(1, 3)), body, draw(st.integers(0, 3)), draw(st.booleans())])
         elif kind == "switch":
@@ -289,6 +306,23 @@ def stmts(draw, cfg: Cfg, mode: str, version: int, fields, subs: List[str], dept
                         draw(st.sampled_from(["&&", "&&", "||"])), draw(st.integers(0, 3)), draw(st.booleans())])
         elif kind == "retcheck":
             out.append(["retcheck", draw(cond(cfg, mode, version, fields))])
+        elif kind == "xconn":
+            # a connective whose operands are (partly or all) computed in other blocks: by a value-returning
+            # subroutine (`callsub vsK`), or before a `b next; next:` split; then &&/|| and a consumer
+            cfg.shared["uid"] += 1
+            nops = draw(st.sampled_from([2, 2, 2, 3]))
+            hows = ["same", "split"] + (["vsub", "vsub"] if version >= 4 else [])
+            ops_ = []
+            for _k in range(nops):
+                oc = draw(atom(cfg, mode, version, fields)) if draw(st.booleans()) else draw(cond(cfg, mode, version, fields, 2))
+                ops_.append([oc, draw(st.sampled_from(hows))])
+            if draw(st.integers(0, 2)) == 0:
+                for o_ in ops_:
+                    if o_[1] == "same":
+                        o_[1] = draw(st.sampled_from(hows[1:]))  # every operand comes from another block
+            conns = [draw(st.sampled_from(["&&", "||"])) for _k in range(nops - 1)]
+            consumer = draw(st.integers(0 if version >= 3 else 2, 5))
+            out.append(["xconn", cfg.shared["uid"], ops_, conns, consumer])
         elif kind == "return":
             out.append(["return", draw(cond(cfg, mode, version, fields)), draw(st.integers(0, 2))])
             break
@@ -325,6 +359,7 @@ class Lower:
         self.cfg = cfg
         self.feats: List[str] = []
         self.need_checker = False
+        self.vsubs: List[tuple] = []  # value-returning auxiliary subroutines (name, condition)
 
     def lab(self, p="l"):
         self.n += 1
@@ -692,6 +727,50 @@ class Lower:
                 self.emit(L(rej))
                 self.emit(I("err"))
                 self.emit(L(ok))
+        elif k == "xconn":
+            uid, ops_, conns, consumer = s[1], s[2], s[3], s[4]
+            self.feats.append("xconn")
+            last_cross = max([i for i, o_ in enumerate(ops_) if o_[1] != "same"], default=-1)
+            if last_cross == len(ops_) - 1:
+                self.feats.append("xconn_all_operands_from_other_blocks")
+            lit_ops = []
+            for i, (oc, how) in enumerate(ops_):
+                if how == "vsub":
+                    nm = f"vs{uid}_{i}"
+                    self.vsubs.append((nm, oc))
+                    self.emit(I("callsub", nm))
+                    self.feats.append("value_returning_subroutine")
+                else:
+                    self.cond(oc)
+                    if how == "split":
+                        nxt = self.lab()
+                        self.emit(I("b", nxt))
+                        self.emit(L(nxt))
+                # what the consuming block can see: an operand pushed before the last block boundary is a value
+                # from another block (opaque for the literal reading)
+                lit_ops.append(oc if i > last_cross else ["opaque_x"])
+            tree = lit_ops[-1]
+            for i in range(len(ops_) - 2, -1, -1):
+                self.emit(I(conns[i]))
+                tree = ["and" if conns[i] == "&&" else "or", lit_ops[i], tree]
+            # connectives are applied innermost (last two operands) first
+            if consumer == 0:
+                self.ann("assert", [], tree)
+            elif consumer == 1:
+                self.emit(I("!"))
+                self.ann("assert", [], ["not", tree])
+            elif consumer in (2, 3):  # continue iff false / iff true; the other side rejects
+                ok = self.lab()
+                self.ann("bz" if consumer == 2 else "bnz", [ok], tree)
+                self.emit(I("err"))
+                self.emit(L(ok))
+            else:  # 4: continue iff true, 5: continue iff false; the jump side rejects
+                rej, ok = self.lab(), self.lab()
+                self.ann("bz" if consumer == 4 else "bnz", [rej], tree)
+                self.emit(I("b", ok))
+                self.emit(L(rej))
+                self.emit(I("err"))
+                self.emit(L(ok))
         elif k == "passcond":
             self.feats.append("passcond")
             self.need_checker = True
@@ -706,6 +785,19 @@ def lower_program(ast: dict, cfg: Cfg) -> dict:
     subs = ast["subs"]
     order = list(subs)
 
+    # a first pass into a side buffer tells which auxiliary subroutines the program needs (`checker`, the
+    # value-returning `vsK_i` of xconn statements) before anything is placed
+    tmp = Lower(ast["version"], cfg)
+    tmp.n = 1000
+    tmp.stmts(ast["main"], None)
+    for nm in order:
+        tmp.stmts(subs[nm], nm)
+    if ast.get("end") == 2 and ast.get("end_cond") is not None:
+        tmp.cond(ast["end_cond"])
+    lw.need_checker = tmp.need_checker
+    vsubs = list(tmp.vsubs)
+    # (conditions of value-returning subroutines may hold further split reads, never further xconn statements)
+
     def emit_subs():
         for nm in order:
             lw.emit(L(nm))
@@ -718,18 +810,14 @@ def lower_program(ast: dict, cfg: Cfg) -> dict:
             lw.emit(L("checker"))
             lw.emit(I("assert"))
             lw.emit(I("retsub"))
+        for nm, c in vsubs:
+            lw.emit(L(nm))
+            lw.cond(c)
+            lw.emit(I("retsub"))
 
-    # main first needs to know whether the checker is needed: lower main into a side buffer
-    main_lw_start = None
-    if ast.get("subs_first") and (subs or True):
-        # lower main first into a temporary to learn about `checker`, then assemble
-        tmp = Lower(ast["version"], cfg)
-        tmp.n = 1000
-        tmp.stmts(ast["main"], None)
-        for nm in order:
-            tmp.stmts(subs[nm], nm)
-        lw.need_checker = tmp.need_checker
-        if subs or lw.need_checker or ast.get("end") == 2:
+    aux = bool(subs) or lw.need_checker or bool(vsubs)
+    if ast.get("subs_first"):
+        if aux or ast.get("end") == 2:
             lw.emit(I("b", "main_start"))
             if ast.get("end") == 2:
                 lw.emit(L("approve_end"))
@@ -742,7 +830,7 @@ def lower_program(ast: dict, cfg: Cfg) -> dict:
         _finish_main(lw, ast)
     else:
         lw.stmts(ast["main"], None)
-        if subs or lw.need_checker:
+        if aux:
             ast = dict(ast, end=0)  # main must not fall into the subroutine bodies
         _finish_main(lw, ast)
         emit_subs()
@@ -792,7 +880,7 @@ def _coalesce_labels(lw: Lower):
     ren = {}
     out = []
     for it in lw.items:
-        if it[0] == "L" and out and out[-1][0] == "L" and it[1] not in ("main_start", "checker", "approve_end") and not it[1].startswith("sub"):
+        if it[0] == "L" and out and out[-1][0] == "L" and it[1] not in ("main_start", "checker", "approve_end") and not it[1].startswith("sub") and not it[1].startswith("vs"):
             ren[it[1]] = out[-1][1]
             continue
         out.append(it)
@@ -857,8 +945,9 @@ DETECTOR_FIELDS = {
 @st.composite
 def semantic_program(draw, profile: str = "modelled", disabled=(), focus: Optional[List[str]] = None,
                      mode: Optional[str] = None, max_stmts: int = 12, with_ast: bool = False, pinned: bool = False,
-                     second_intcblock: bool = False, allslots: bool = False):
+                     second_intcblock: bool = False, allslots: bool = False, xflag: bool = False):
     cfg = Cfg(profile, disabled, focus, mode)
+    cfg.xflag = xflag
     version = draw(st.sampled_from([8, 8, 8, 7, 6, 5, 4, 4, 3, 2]))
     if pinned:
         # the program first asserts its own group position i; every check of a governed field is then spelled
